@@ -29,7 +29,7 @@ def gen_cases(rng, n):
         b = rng.choice([-2.0, 0.0, 1.5, 3.0, 0.3])
         c = rng.choice([-1.0, 0.0, 2.0, 0.7])
         x0 = rng.choice([-3.0, -1.0, 0.0, 0.25, 2.0, 4.0, 1.5])
-        bk = rng.choice(["none", "wide", "tight", "exclude-start", "exclude-min", "min-near-bound"])
+        bk = rng.choice(["none", "wide", "tight", "exclude-start", "exclude-min", "min-near-bound", "start-at-edge"])
         lr = rng.choice([0.1, 0.01, 0.05, 0.3])
         max_iter = rng.choice([5, 40, 200, 1000])
         mom = rng.choice([0.9, 0.5, 0.0])
@@ -52,6 +52,16 @@ def gen_cases(rng, n):
         else:
             bounds = [b + 0.5, max(x0, b + 0.5) + 3.0] if x0 >= b + 0.5 else [min(x0, b - 3.0), b - 0.5]
         tol = rng.choice([1e-4, 1e-6, 1e-2])
+        if bk == "start-at-edge":
+            # the start sits exactly on a bound, one unit in the last place inside or outside it, or outside by a
+            # fraction of the convergence tolerance: on or inside is a start, outside (by however little) is an error
+            import math
+            lo, hi = x0 - rng.choice([0.5, 3.0]), x0 + rng.choice([0.5, 3.0])
+            if rng.random() < 0.5:
+                x0 = rng.choice([hi, math.nextafter(hi, math.inf), math.nextafter(hi, -math.inf), hi + tol / 2, hi + tol / 16])
+            else:
+                x0 = rng.choice([lo, math.nextafter(lo, -math.inf), math.nextafter(lo, math.inf), lo - tol / 2, lo - tol / 16])
+            bounds = [lo, hi]
         cases.append({"kind": kind, "abc": [fhex(a), fhex(b), fhex(c)], "x0": fhex(x0),
                       "bounds": [fhex(v) for v in bounds] if bounds else None, "lr": fhex(lr), "max_iter": max_iter,
                       "tol": fhex(tol), "mom": fhex(mom), "bounds_kind": bk})
